@@ -776,3 +776,9 @@ mod tests {
         train_sim.walk().unwrap();
     }
 }
+
+// Verification hook (inert unless built with `--cfg nrel_altrios_verif` or under `cargo kani`).
+#[cfg(any(kani, nrel_altrios_verif))]
+mod verif_hook {
+    include!(concat!(env!("NREL_ALTRIOS_VERIF_DIR"), "/hooks/train__speed_limit_train_sim.rs"));
+}
